@@ -557,7 +557,9 @@ func genLocCase(r *rand.Rand, prof string) Case {
 			map[string]interface{}{"loc": "L0", "op": "getfact", "id": "d1"},
 			map[string]interface{}{"loc": "L0", "op": "getfact", "id": "p0"})
 	}
+	scriptedChild := false
 	if prof == "cascade" && r.Intn(8) == 0 {
+		scriptedChild = true
 		// scripted opening: a chain a0 <- b0 <- c0 (<- a rule) whose MIDDLE link expires without anybody
 		// reading it, then the removal of a0: the cascade's search meets the expired link, skips and notes
 		// it, and the purge that follows the removal must remove it AND continue the cascade through it;
@@ -614,6 +616,9 @@ func genLocCase(r *rand.Rand, prof string) Case {
 		}
 	}
 	c := Case{"profile": prof, "locs": locs, "ops": ops}
+	if scriptedChild {
+		c["child"] = true // (a deadlock in the purge that follows the removal must be an observation)
+	}
 	if prof == "expiry" {
 		c["phase10"] = pick(r, 1, 6).(int)
 	}
